@@ -14,6 +14,12 @@ replace github.com/PapaCharlie/go-restli/v2 => /repo/v2
 require golang.org/x/tools v0.29.0
 
 require (
+	github.com/dave/jennifer v1.7.0 // indirect
+	github.com/josharian/intern v1.0.0 // indirect
+	github.com/mailru/easyjson v0.7.7 // indirect
+	github.com/pkg/errors v0.9.1 // indirect
+	github.com/spf13/cobra v1.6.0 // indirect
+	github.com/spf13/pflag v1.0.5 // indirect
 	golang.org/x/mod v0.22.0 // indirect
 	golang.org/x/sync v0.10.0 // indirect
 )
